@@ -299,30 +299,55 @@ def run_names(names):
     return fails
 
 
-def run_history(loops_extra=40):
-    """A machine that loops for ever must be failed once its history passes 25000 events."""
+HISTORY_SHAPES = {
+    # name -> (definition, input, workers, steps needed per history event (upper bound))
+    "pass-loop": ({"StartAt": "A", "States": {"A": {"Type": "Pass", "Next": "B"}, "B": {"Type": "Pass", "Next": "A"}}}, {}, 1),
+    "choice-loop": ({"StartAt": "A", "States": {"A": {"Type": "Choice", "Choices": [{"Variable": "$.go", "BooleanEquals": True, "Next": "B"}], "Default": "B"}, "B": {"Type": "Pass", "Next": "A"}}}, {"go": True}, 1),
+    "task-loop": ({"StartAt": "A", "States": {"A": {"Type": "Task", "Resource": "arn:aws:rpcmessage:local::function:echo", "Next": "A"}}}, {}, 2),
+    # the history grows while one state is being retried: no state is entered between the attempts
+    "task-retry": ({"StartAt": "A", "States": {"A": {"Type": "Task", "Resource": "arn:aws:rpcmessage:local::function:boom", "Retry": [{"ErrorEquals": ["States.ALL"], "IntervalSeconds": 1, "BackoffRate": 1.0,
+                                                                                                                                       "MaxAttempts": 1000000}], "End": True}}}, {}, 3),
+    "parallel-retry": ({"StartAt": "P", "States": {"P": {"Type": "Parallel", "Branches": [{"StartAt": "X", "States": {"X": {"Type": "Fail", "Error": "E"}}}],
+                                                        "Retry": [{"ErrorEquals": ["States.ALL"], "IntervalSeconds": 1, "BackoffRate": 1.0, "MaxAttempts": 1000000}], "End": True}}}, {}, 3),
+    # the history limit error itself must not be caught: a state that catches everything and loops
+    "catch-loop": ({"StartAt": "A", "States": {"A": {"Type": "Task", "Resource": "arn:aws:rpcmessage:local::function:boom", "Catch": [{"ErrorEquals": ["States.ALL"], "Next": "A"}], "End": True}}}, {}, 3),
+    # a small Map with MaxConcurrency 1 (re-entered for every block) inside a loop
+    "map-loop": ({"StartAt": "M", "States": {"M": {"Type": "Map", "ItemsPath": "$.items", "MaxConcurrency": 1, "Iterator": {"StartAt": "I", "States": {"I": {"Type": "Pass", "End": True}}}, "ResultPath": "$.r", "Next": "M"}}},
+                 {"items": [1, 2, 3, 4, 5]}, 3),
+    "wait-loop": ({"StartAt": "A", "States": {"A": {"Type": "Wait", "Seconds": 1, "Next": "A"}}}, {}, 3),
+}
+
+
+def run_history(shape="pass-loop", slack=60):
+    """A machine whose history grows for ever must be failed once it passes 25000 events - however it grows (new states, retries of one state, blocks of one Map)."""
     from .. import world as W
     fails = []
     w = W.World(seed=16, tick=0.0)
+    w.eager_time = True
     try:
         eng = w.add_engine("A")
-        definition = {"StartAt": "A", "States": {"A": {"Type": "Pass", "Next": "B"}, "B": {"Type": "Pass", "Next": "A"}}}
-        w.create_state_machine("loop", definition)
-        st, r = w.start_execution(W.sm_arn("loop"), {}, name="e")
+        w.add_worker("echo", lambda i, p, props: [(0, p)])
+        w.add_worker("boom", lambda i, p, props: [(0, {"errorType": "Boom", "errorMessage": "b"})])
+        definition, input_value, cost = HISTORY_SHAPES[shape]
+        st, r = w.create_state_machine("grow", definition)
+        if st != 200:
+            raise HarnessError("history machine refused: %r" % (r,))
+        st, r = w.start_execution(W.sm_arn("grow"), input_value, name="e")
         arn = r["executionArn"]
-        budget = L_HIST // 2 + loops_extra + 50
-        res = w.run((), max_steps=budget, until=lambda w_: w_.terminal(arn) is not None)
+        hist = lambda: eng.state_engine.execution_history.get(arn, [])
+        # run until the execution ends or its history is clearly past the limit
+        res = w.run((), max_steps=(L_HIST + 4 * slack) * cost * 3, until=lambda w_: w_.terminal(arn) is not None or len(hist()) > L_HIST + 4 * slack)
         d = w.terminal(arn)
-        hist = eng.state_engine.execution_history.get(arn, [])
+        n = len(hist())
         if d is None:
-            fails.append(("history:not-failed-past-limit", "after %d state transitions the execution is still running with %d history events" % (w.steps, len(hist))))
+            fails.append(("history:not-failed-past-limit:" + shape, "after %d steps the execution is still running with %d history events" % (w.steps, n)))
         else:
             if d["status"] != "FAILED":
-                fails.append(("history:wrong-status", repr(d["status"])))
-            if len(hist) <= L_HIST:
-                fails.append(("history:failed-within-limit", "failed with %d events (limit %d)" % (len(hist), L_HIST)))
-            if len(hist) > L_HIST + 2 * loops_extra:
-                fails.append(("history:grew-far-past-limit", "%d events" % len(hist)))
+                fails.append(("history:wrong-status:" + shape, repr(d["status"])))
+            if n <= L_HIST:
+                fails.append(("history:failed-within-limit:" + shape, "failed with %d events (limit %d): %r" % (n, L_HIST, d.get("error"))))
+            if n > L_HIST + slack:
+                fails.append(("history:grew-far-past-limit:" + shape, "%d events" % n))
     finally:
         w.close()
     return fails
@@ -360,7 +385,7 @@ def run_scenario(sc):
     if k == "names":
         return run_names([tuple(x) for x in sc["names"]])
     if k == "history":
-        return run_history()
+        return run_history(sc.get("shape", "pass-loop"))
     if k == "history-within":
         return run_history_within(sc.get("n", 200))
     raise HarnessError("unknown scenario %r" % (sc,))
@@ -387,9 +412,14 @@ def window_scenarios():
 
 def run_list(k, seed, tier, scenarios=None, nshards=1):
     camp = Campaign(PID, rule=RULE, tier=tier, seed=seed)
-    for i, sc in enumerate(scenarios):
-        if i % nshards != k:
-            continue
+    # the long task-retry history scenario has shard 0 to itself
+    heavy = [sc for sc in scenarios if sc.get("shape") == "task-retry"]
+    rest = [sc for sc in scenarios if sc.get("shape") != "task-retry"]
+    if heavy and nshards > 1:
+        mine = heavy if k == 0 else [sc for i, sc in enumerate(rest) if i % (nshards - 1) == k - 1]
+    else:
+        mine = [sc for i, sc in enumerate(scenarios) if i % nshards == k]
+    for sc in mine:
         one(camp, sc)
     return camp.export()
 
@@ -456,7 +486,8 @@ def main(tier, seed, replay=None):
         "so the API's and the engine's count coincide (compact or non-ASCII texts, whose two counts differ, are not generated)",
         "for Map/Parallel/ResultSelector places the state's input is kept far below the limit so that only the output crosses it",
         "names: validity = 1..80 characters and none of the forbidden characters listed in the AWS API reference; control characters are not generated",
-        "history: a two-state loop is run until it is failed; 'rather than growing without bound' is checked as: failed with more than 25000 and at most 25000+80 events",
+        "history: machines whose history grows for ever in seven different ways (Pass/Choice/Task/Wait loops, one Task or Parallel retried without end, one Map re-entered per MaxConcurrency block) are run until they end; "
+        "'rather than growing without bound' is checked as: FAILED with more than 25000 and at most 25000+60 events",
     ]
     if replay:
         with open(replay) as fp:
@@ -470,13 +501,13 @@ def main(tier, seed, replay=None):
     camp.run_witnesses(replay_case)
     scen = window_scenarios()
     if tier == "thorough":
-        scen.append({"kind": "history"})
-        scen.sort(key=lambda s: 0 if s["kind"] == "history" else 1)
+        scen.extend({"kind": "history", "shape": sh} for sh in HISTORY_SHAPES)
+        scen.sort(key=lambda s: 0 if s.get("shape") == "task-retry" else 1 if s["kind"] == "history" else 2)
         run_shards(camp, __name__, "run_list", 16, scenarios=scen, nshards=16)
         run_shards(camp, __name__, "far_shard", 16, examples=40)
     else:
-        scen.append({"kind": "history"})
-        scen.sort(key=lambda s: 0 if s["kind"] == "history" else 1)
+        scen.extend({"kind": "history", "shape": sh} for sh in HISTORY_SHAPES)      # task-retry (~8000 retried attempts, 20 s) runs in a shard of its own
+        scen.sort(key=lambda s: 0 if s.get("shape") == "task-retry" else 1 if s["kind"] == "history" else 2)
         run_shards(camp, __name__, "run_list", 16, scenarios=scen, nshards=16)
         run_shards(camp, __name__, "far_shard", 8, examples=6)
     camp.extra["exhaustive_subdomain"] = "the window L-2..L+2 is enumerated completely for every place in both tiers"
